@@ -138,6 +138,21 @@ const PROFILES: &[Profile] = &[
 ];
 
 
+/// Crash journal (HBV_JOURNAL=<path>): every header / env / plan / op line is appended and flushed
+/// BEFORE it is executed, so after an abort the last scenario in the journal is the replay.
+fn journal(line: &str) {
+    use std::sync::{Mutex, OnceLock};
+    static J: OnceLock<Option<Mutex<std::fs::File>>> = OnceLock::new();
+    let j = J.get_or_init(|| {
+        std::env::var_os("HBV_JOURNAL").map(|p| Mutex::new(std::fs::File::create(p).expect("journal")))
+    });
+    if let Some(f) = j {
+        let mut f = f.lock().unwrap();
+        let _ = writeln!(f, "{}", line);
+        let _ = f.flush();
+    }
+}
+
 struct Base {
     id: String,
     coll: &'static str,
@@ -215,6 +230,10 @@ fn make_base(prof: &Profile, seed: u64, i: usize, real: Option<&mut dyn Write>) 
     }
     pre.push(pl);
     apply_pre(&pre);
+    journal(&header(&id, prof.coll, lay, runner.as_ref()));
+    for l in &pre {
+        journal(l);
+    }
     let mut g = gen::Gen::new(rng.next(), universe, prof.gen);
     let mut ops = Vec::new();
     let mut counters = Vec::new();
@@ -229,6 +248,7 @@ fn make_base(prof: &Profile, seed: u64, i: usize, real: Option<&mut dyn Write>) 
         let toks: Vec<&str> = op.split_whitespace().collect();
         let before = runner.dump(toks[0]);
         let hc0 = counters_now()[0];
+        journal(&format!("op {}", op));
         let obs = runner.op(toks[0], toks[1], &toks[2..]);
         let after = runner.dump(toks[0]);
         inplace.push(
@@ -280,6 +300,7 @@ fn generate(profile: &str, seed: u64, count: usize, out: &str) {
             writeln!(ops, "op {}", o).unwrap();
         }
         writeln!(ops, "end").unwrap();
+        ops.flush().unwrap();
     }
 }
 
@@ -360,8 +381,13 @@ fn sweep(prof: &Profile, seed: u64, count: usize, ops: &mut dyn Write, real: &mu
                     writeln!(real, "scn {}", id).unwrap();
                     let mut runner = make_runner(b.coll, b.drop, b.lay);
                     apply_pre(&b.pre);
+                    journal(&header(&id, b.coll, b.lay, runner.as_ref()));
+                    for l in &b.pre {
+                        journal(l);
+                    }
                     for l in &lines {
                         writeln!(ops, "{}", l).unwrap();
+                        journal(l);
                         let toks: Vec<&str> = l.split_whitespace().collect();
                         if toks[0] == "env" {
                             tape::with(|t| t.p.apply(&toks[1..]));
